@@ -232,7 +232,9 @@ def job_format(fmt, year_digits=None, sign="pos"):
 PANEL_QUICK = ["%Y-%m-%d %H:%M:%S", "%E4Y-%m-%dT%H:%M", "%E*S", "%e|%u|%w|%Z|%%|%ET", "%z %:z %::z %:::z %E*z", "%E3S", "%E0S", "%E15f", "%E18S", "%E*f",
                "%", "%E", "%%%", "%E*", "%:", "ab%Qcd%E5Y%::",
                # every specifier format() renders itself, each directly after one it delegates to strftime (the pending text is flushed first)
-               "%a%Y%b%m%c%d%a%e", "%a%H%b%M%c%S", "%a%z%b%:z", "%c%::z%a%:::z", "%a%Ez%b%E*z", "%a%ET%b%%%c", "%a%E4Y%b", "%b%E*S", "%a%E3S%c", "%a%E*f%b%E5f%a%Z%b"]
+               "%a%Y%b%m%c%d%a%e", "%a%H%b%M%c%S", "%a%z%b%:z", "%c%::z%a%:::z", "%a%Ez%b%E*z", "%a%ET%b%%%c", "%a%E4Y%b", "%b%E*S", "%a%E3S%c", "%a%E*f%b%E5f%a%Z%b",
+               # escaped percents between delegated text and an own specifier (even and odd runs)
+               "%a%%Y|%b%%%%m|%c%%%d", "%a x%%Ez|%b%%%%E*S"]
 def format_jobs(tier):
     js = [("driver-format:%r" % p, job_format, {"fmt": p, "year_digits": 6}) for p in PANEL_QUICK]
     js += [("driver-format:%r,negative" % p, job_format, {"fmt": p, "year_digits": 6, "sign": "neg"}) for p in ("%Y-%m-%d", "%E4Y")]
@@ -249,6 +251,7 @@ def replay_parse_model(job, m):
     for p in pieces:
         if p[0] == "lit": data += p[1].encode()
         elif p[0] == "const": vals[p[1]] = p[2]
+        elif p[0] == "reject": vals["reject"] = p[1]
         elif p[0] == "num":
             ds = [m.get("%s_%d" % (p[1], i), 48) for i in range(p[2])]
             data += bytes(ds); vals[p[1]] = int(bytes(ds))
@@ -270,6 +273,7 @@ def replay_parse_model(job, m):
             ok = ok and vals["zh"] <= 23 and vals["zm"] <= 59
             offp = (vals["zh"] * 3600 + vals["zm"] * 60) * (-1 if vals["osign"] == 45 else 1)
         if shape == "trailing": ok = ok and chr(vals["any"]) in " \t\n\v\f\r"
+        if "reject" in vals: ok = False
         want = None
         if ok:
             inst = cal.sec(Y, mo, dd, H, M, 59 if S == 60 else S) + (1 if S == 60 else 0) - (offp if offp is not None else zoff)
@@ -326,6 +330,10 @@ PARSE_SHAPES = {
     "s-short": ("%s", [("num", "s", 10)]),
     "ES": ("%H:%M:%E*S", [("num", "H", 2), ("lit", ":"), ("num", "M", 2), ("lit", ":"), ("num", "S", 2), ("lit", "."), ("num", "f", 3)]),
     "trailing": ("%H:%M", [("num", "H", 2), ("lit", ":"), ("num", "M", 2), ("any", "x")]),
+    # %E4Y takes exactly four characters (sign included): shorter years are rejected, four-character ones are read
+    "E4Y-4": ("%E4Y-%m-%d", [("num", "Y", 4), ("lit", "-"), ("num", "m", 2), ("lit", "-"), ("num", "d", 2)]),
+    "E4Y-3": ("%E4Y-%m-%d", [("reject", "a three-digit year where %E4Y wants four characters"), ("num", "Y", 3), ("lit", "-"), ("num", "m", 2), ("lit", "-"), ("num", "d", 2)]),
+    "E4Y-1": ("%E4Y-%m-%d", [("reject", "a one-digit year where %E4Y wants four characters"), ("num", "Y", 1), ("lit", "-"), ("num", "m", 2), ("lit", "-"), ("num", "d", 2)]),
     # the ends of the range: the last / first few days of time_point<seconds>, read with an explicit offset or in the caller's zone
     "max-z": ("%Y-%m-%d %H:%M:%S %z", [("const", "Y", 292277026596), ("const", "m", 12), ("lit", "292277026596-12-0"), ("num", "d", 1), ("lit", " "), ("num", "H", 2), ("lit", ":"), ("num", "M", 2),
                                         ("lit", ":"), ("num", "S", 2), ("lit", " "), ("osign", "z"), ("num", "zh", 2), ("num", "zm", 2)]),
@@ -349,6 +357,7 @@ def job_parse(shape):
         for p in pieces:
             if p[0] == "lit": data += list(p[1].encode())
             elif p[0] == "const": vals[p[1]] = p[2]
+            elif p[0] == "reject": vals["reject"] = p[1]
             elif p[0] == "num":
                 bs, v = digits(ex, st, p[1], p[2]); data += bs; vals[p[1]] = v
             elif p[0] == "osign":
@@ -440,6 +449,7 @@ def job_parse(shape):
             if shape == "trailing":
                 sp = or_(eq(vals["any"], 32), and_(le(9, vals["any"]), le(vals["any"], 13)))
                 want_ok = and_(want_ok, sp)
+            if "reject" in vals: want_ok = False          # the input does not have the shape the format demands
             ex.prove(st2, smt.iff(ok, want_ok), "parse(%r): true iff every field is in its documented range, the date exists and nothing but whitespace follows" % fmt)
             ex.prove(st2, implies(ok, eq(ex.load(st2, sec, I64), inst)), "parse(%r): the instant is exactly the one the fields denote (offset or zone applied, :60 rolls over)" % fmt)
             if "f" in vals:
